@@ -375,7 +375,36 @@ def run_case(case, ctx):
             if not isinstance(e, (list, tuple)) or len(e) < 2 or not isinstance(e[0], str):
                 continue
             k, v = e[0], e[1]
-            route = e[2] if len(e) > 2 and e[2] in ("setitem", "update_statepoint", "assign") else "setitem"
+            route = e[2] if len(e) > 2 and e[2] in ("setitem", "update_statepoint", "assign", "usp_conflict", "scribble") else "setitem"
+            if route == "scribble":
+                # the caller edits the plain copies it was handed (nested parts included): never the job's business
+                for plain in (job.statepoint(), job.sp()):
+                    _scribble(plain)
+                cl.append("caller_edits_returned_copy")
+                for what, got in (("statepoint()", job.statepoint()), ("cached_statepoint", dict(job.cached_statepoint))):
+                    if oracle.job_id(got) != job.id:
+                        mms.append(Mismatch("handle_id_ne_hash", f"after the caller edited the dict returned by statepoint() of {cur!r}: the handle has id {job.id[:8]} but its {what} = {got!r} hashes to {oracle.job_id(got)[:8]}"))
+                continue
+            if route == "usp_conflict":
+                # a refused update (new key first, conflicting key second, overwrite=False) must leave the handle as it was
+                if not cur:
+                    continue
+                ck = sorted(cur)[0]
+                upd = {"zz_new": 1, ck: ["conflict", cur[ck]]}
+                try:
+                    job.update_statepoint(upd, overwrite=False)
+                    mms.append(Mismatch("unexpected_exception", f"update_statepoint({upd!r}, overwrite=False) on {cur!r} did not raise KeyError"))
+                    break
+                except KeyError:
+                    pass
+                except Exception as exc:
+                    mms.append(Mismatch("unexpected_exception", f"update_statepoint({upd!r}, overwrite=False) on {cur!r} raised {type(exc).__name__}: {exc}"))
+                    break
+                cl.append("refused_update_statepoint")
+                for what, got in (("statepoint()", job.statepoint()), ("cached_statepoint", dict(job.cached_statepoint))):
+                    if oracle.job_id(got) != job.id:
+                        mms.append(Mismatch("handle_id_ne_hash", f"after a refused update_statepoint({upd!r}) on {cur!r}: the handle has id {job.id[:8]} but its {what} = {got!r} hashes to {oracle.job_id(got)[:8]}"))
+                continue
             try:
                 if route == "update_statepoint":
                     job.update_statepoint({k: v}, overwrite=True)
@@ -458,6 +487,17 @@ def run_case(case, ctx):
                 mms.append(Mismatch("deterministic", f"value {t} got several ids {sorted(ids)}"))
         return {"mismatches": mms, "classes": ["partition"], "nontrivial": False}
     raise HarnessError(f"unknown case kind {kind}")
+
+
+def _scribble(v):
+    if isinstance(v, dict):
+        for x in list(v.values()):
+            _scribble(x)
+        v["scribbled_by_caller"] = 1
+    elif isinstance(v, list):
+        for x in v:
+            _scribble(x)
+        v.append("scribbled_by_caller")
 
 
 def _mutate(d):
@@ -566,13 +606,17 @@ def run(ctx):
         "kind": st.just("rekey_cache"),
         "sp": gen.small_statepoints(allow_bool_int_mix=True),
         "edits": st.lists(st.tuples(st.sampled_from(["a", "b", "zz"]), st.sampled_from([0, 1, 1.0, True, "1", None, [1, 2]]),
-                                    st.sampled_from(["setitem", "setitem", "update_statepoint", "assign"])), min_size=1, max_size=3),
+                                    st.sampled_from(["setitem", "setitem", "update_statepoint", "assign", "usp_conflict", "scribble"])), min_size=1, max_size=4),
         "how": st.sampled_from(["id", "iter"]),
         "touch": st.booleans(),
         "peek": st.booleans(),
         "transient": st.sampled_from([None, None, "missing", "torn"]),
     })
     drive(ctx, hist_st, 100 if ctx.tier == "quick" else 800, ctx.apply)
+    if ctx.worker == 0:
+        for how in ("id", "iter"):
+            ctx.apply({"kind": "rekey_cache", "sp": {"a": 1, "n": {"x": [1, {"y": 2}], "z": {"w": 0}}, "l": [[1], 2]}, "how": how, "touch": True, "peek": True, "transient": None,
+                       "edits": [["a", 0, "scribble"], ["a", 2, "setitem"], ["a", 0, "scribble"], ["a", 0, "usp_conflict"], ["b", 1, "update_statepoint"], ["a", 0, "scribble"]]})
 
     # cross-process batches
     nb = 1 if ctx.tier == "quick" else 3
